@@ -253,7 +253,16 @@ prop('C11', level='other', design_ref='DESIGN.md section 6 (C11)',
      not_decided=['MerkleCache functions under interference not under deductive contract', 'tsc_merkle_proof_for_tx_hash'],
      assumptions=[])
 
-for _pid in ['C07']:
+prop('C07', level='other', design_ref='DESIGN.md section 6 (C07)',
+     technique='deductive verification of the per-component obligations of the notification path (VCs from real source, z3); the '
+               'composition over all interleavings is written in DESIGN.md, not machine-checked',
+     text='Notifications (C20), _notify_sessions (C10), _notify_inner, on_caught_up, subscription_address_status are under contract: '
+          'no hand-over lost, block queryable before it is reported, every touched subscribed script hash notified.',
+     note='Components only; convergence over all interleavings of five tasks is not decided by contracts.',
+     explanation='Component obligations; composition written, not mechanised.',
+     not_decided=['end-to-end convergence over schedules', 'status string formatting vs docs/protocol-basics.rst'], assumptions=[])
+
+for _pid in []:
     na(_pid, 'contracts for this property are not yet built in this round (planned: DESIGN.md section 6); nothing is claimed')
 na('C06', 'quantifies over cancellation instants of an asyncio task while worker-thread jobs keep running: not '
           'expressible as pre/postconditions of functions in a sequential or cooperative model (DESIGN.md section 6, C06)')
